@@ -137,6 +137,8 @@ func (e *Engine) atReturn(st *State, fr *Frame, fc *FnContract, res []Value) {
 		if HasTag(en.C.Tags, "assume") {
 			// clause marked {assume}: used by callers, not proved against the body
 			e.UsedAssumed[fc.Key+" ["+en.C.Label+"] (assumed clause)"] = true
+			// (a definition: also available to the clauses that follow it)
+			st.Assume(e.evalClause(st, fr, en, env).(*smt.Term))
 			continue
 		}
 		g := e.evalClause(st, fr, en, env).(*smt.Term)
@@ -1156,6 +1158,14 @@ type DischargeOpts struct {
 // select/sbyte in the query, giving i := g - base. Dropping the quantified form
 // keeps the query quantifier-free (a "sat" answer is then only a candidate
 // counterexample); it is sound for proofs because instances are consequences.
+func guardLimit() int {
+	if v := os.Getenv("GVC_GUARD_LIMIT"); v != "" {
+		n, _ := strconv.Atoi(v)
+		return n
+	}
+	return 120
+}
+
 type appBase struct {
 	key  string
 	base *smt.Term
@@ -1186,10 +1196,15 @@ func (e *Engine) instantiate(hyps []*smt.Term, goal *smt.Term, skolems []*smt.Te
 				// every guard is contradicted by a literal hypothesis: a plain universal fact
 				quants = append(quants, gq)
 				qguards = append(qguards, nil)
-			case e.defImpl[h]:
-				// definition of a revealed opaque spec function: instances are g or P[t]
+			case e.defImpl[h] || len(hyps) <= guardLimit():
+				// definition of a revealed opaque spec function, or any guarded universal in a
+				// small query: instances are g or P[t]; in small queries the quantified
+				// hypothesis itself is kept as well (engine-side instantiation is incomplete)
 				quants = append(quants, gq)
 				qguards = append(qguards, rest)
+				if len(hyps) <= guardLimit() {
+					ground = append(ground, h)
+				}
 			default:
 				// left to the solver's own quantifier handling
 				ground = append(ground, h)
